@@ -49,6 +49,7 @@ inductive Op where
   | reload (target : Nat) (n : Int)     -- reload_object(target); its create() does set_heart_beat(n) again
   | living                              -- enable_commands()
   | burn                                -- use up evaluation cost
+  | zshb (n : Int)                      -- set_heart_beat(n) in this object itself, also when it has just destructed itself
   | mv (dest : Nat)                     -- move_object (dest): this object moves (out of its carrier, if any) into dest
   | rp                                  -- replace_program ("/c11/base"): the inherited program without heart_beat()
   deriving Repr, BEq
@@ -201,6 +202,11 @@ def stepOpBasic (w : World) (self : Nat) (op : Op) : World × List Ev × Status 
       ({ w with inv := (i, self) :: w.inv }, [.into i self], .ok)
     else (w, [.intoNone i self], .ok)
   | .cerr => (w, [.caught self], .ok)
+  | .zshb n =>
+    -- f_set_heart_beat -> set_heart_beat (current_object, n): the O_DESTRUCTED test at its entry is what keeps a
+    -- destructed object off the list
+    if !w.known.contains self then (w, [.zshb self n], .ok)
+    else (setHeartBeat w self (NV.Gen.C11.efunSat n), [.zshb self n], .ok)
   | .mv x =>
     if w.alive x && !(x < 2) && !(self < 2) && x != self && !isItem w x && (itemsOf w self).isEmpty then
       ({ w with inv := (self, x) :: w.inv.filter (fun p => p.1 != self) }, [.moved self x], .ok)
@@ -289,6 +295,17 @@ def stepOp (w : World) (self : Nat) (op : Op) : World × List Ev × Status :=
       | (w', evs, .err) => (w', evs, .err)
   | op => stepOpBasic w self op
 
+/-- what is left of a script after the object destructed itself: the function runs on until it returns; its own
+    set_heart_beat calls (`zshb`) and an error raised there are executed, everything else ends the script -/
+def runDead (w : World) (self : Nat) : List Op → World × List Ev × Status
+  | .zshb n :: rest =>
+    match stepOpBasic w self (.zshb n) with
+    | (w1, evs, _) =>
+      match runDead w1 self rest with
+      | (w2, evs2, st) => (w2, evs ++ evs2, st)
+  | .err :: _ => (w, [.err self], .err)
+  | _ => (w, [], .stop)
+
 /-- run a script; stops at the first error or when the object is destructed (by itself, or as an inventory item
     of the object it destructed) -/
 def runOps (w : World) (self : Nat) : List Op → World × List Ev × Status
@@ -301,9 +318,8 @@ def runOps (w : World) (self : Nat) : List Op → World × List Ev × Status
     | (w1, evs, .stop) =>
       -- the function of a destructed object runs on until it returns: an error raised there still reaches
       -- error_handler, whose set_heart_beat (current_heart_beat, 0) then meets O_DESTRUCTED
-      match rest with
-      | .err :: _ => (w1, evs ++ [.err self], .err)
-      | _ => (w1, evs, .stop)
+      match runDead w1 self rest with
+      | (w2, evs2, st) => (w2, evs ++ evs2, st)
     | (w1, evs, st) => (w1, evs, st)
 
 /-- write back (heart_beat_index, num_hb_to_do, current_heart_beat) computed by a regenerated slice; the slices only ever
